@@ -829,6 +829,7 @@ theorem c03_first_order_global (N : Seminorm ℝ (Matrix n n ℂ)) (H : Matrix n
   refine h'.trans (le_of_eq ?_)
   ring
 
+omit [DecidableEq n] in
 /-- **C03.8b `c03_first_order_global_entry`** the same with both hypotheses and conclusion written entry by entry — the form of
     `c01_local_error_quadratic` / `c03_local_error_quadratic`: if every entry of every unit vector's one-step error is `≤ C·dt²`,
     and `exp(dt𝓛)` is `(1+K·dt)`-stable in the max-entry norm, then every entry of
